@@ -493,8 +493,15 @@ impl JobServer {
                 .map_err(RedoError::opaque_error)?;
             assert_eq!(state.my_tokens, 1);
         }
+        // We were started holding exactly one token, and whoever reaps us
+        // re-creates exactly one when we die.  If we really hold less than
+        // that (our own token was released and never came back, or the one
+        // we hold is a borrowed "cheat" token), each missing token has to be
+        // compensated by a byte in the cheat pipe, which tells a process
+        // reaping a child *not* to re-create a token.
+        let held = state.my_tokens - state.cheats;
         assert!(
-            state.cheats <= state.my_tokens,
+            held <= 1,
             "mytokens={}, cheats={}",
             state.my_tokens,
             state.cheats
@@ -504,15 +511,18 @@ impl JobServer {
             "cheats={}",
             state.cheats
         );
+        let debt = 1 - held;
         if state.cheats > 0 {
-            let cheats = state.cheats;
+            let cheats = cmp::min(state.cheats, state.my_tokens);
             debug_jobserver!(
                 "{},{} -> force_return_tokens: recovering final token",
                 state.my_tokens,
                 cheats
             );
             state.destroy_tokens(cheats);
-            write_tokens(self.params.cheat_fds.1, state.cheats as usize)
+        }
+        if debt > 0 && self.params.top_level == 0 {
+            write_tokens(self.params.cheat_fds.1, debt as usize)
                 .map_err(RedoError::opaque_error)?;
         }
         Ok(())
